@@ -304,6 +304,12 @@ impl Fq {
     pub(crate) fn new_mul_factor(val: U256) -> Self {
         Fq(fields::Fq::new_mul_factor(val))
     }
+    /// A point coordinate: exactly 32 big-endian bytes encoding an integer below q.
+    fn from_canonical_slice(hex: &[u8]) -> Result<Self, CurveError> {
+        fields::Fq::from_slice(hex)
+            .map(Fq)
+            .ok_or(CurveError::Field(FieldError::NotMember))
+    }
     fn add_inplace(&self, other: &Fq) -> Fq {
         Fq(self.0.add(&other.0))
     }
@@ -491,7 +497,7 @@ impl G1 {
         if sign != 2 && sign != 3 {
             return Err(CurveError::InvalidEncoding);
         }
-        let x = Fq::from_slice(&bytes[1..]).ok_or(CurveError::InvalidEncoding)?;
+        let x = Fq::from_canonical_slice(&bytes[1..])?;
         let y_squared = (x * x * x) + Self::b();
         let mut y = y_squared.sqrt().ok_or(CurveError::NotMember)?;
         let is_even = sign & 1 == 0;
@@ -554,8 +560,8 @@ impl G1 {
             return Err(CurveError::InvalidEncoding);
         }
 
-        let x = Fq::from_slice(&bytes[..32]).ok_or(CurveError::InvalidEncoding)?;
-        let y = Fq::from_slice(&bytes[32..]).ok_or(CurveError::InvalidEncoding)?;
+        let x = Fq::from_canonical_slice(&bytes[..32])?;
+        let y = Fq::from_canonical_slice(&bytes[32..])?;
 
         AffineG1::new(x, y)
             .map_err(|_| CurveError::NotMember)
